@@ -4,6 +4,7 @@ import (
 	"bytes"
 	"encoding/json"
 	"io"
+	"math/big"
 	"reflect"
 	"strings"
 
@@ -234,4 +235,104 @@ func boolMap(m map[string]bool) map[string]any {
 		out[k] = nil
 	}
 	return out
+}
+
+func init() {
+	families["rawdoc"] = &Family{Run: runRawDoc}
+}
+
+var rawDocInsts = []string{`null`, `0`, `1`, `2.5`, `100`, `""`, `"a"`, `"abc"`, `true`, `[]`, `[1]`, `[1,1]`, `[null,"a",3]`, `{}`, `{"a":1}`, `{"a":"x","b":2,"c":null}`}
+
+// Family "rawdoc" (C05, document side): CASE {"doc": text, "norm": text}:
+// Marshal(Unmarshal(doc)) equals norm as a JSON value, a second round trip is
+// byte-identical, and the verdicts of doc and of its re-marshaled form agree.
+func runRawDoc(hdr Header, c any, src string) CaseResult {
+	cm := abs.Obj(c)
+	doc, norm := cm["doc"].(string), cm["norm"].(string)
+	res := CaseResult{Evals: 1, Key: doc, Nontrivial: true}
+	fail := func(kind string, exp, got any) CaseResult {
+		res.Failures = append(res.Failures, Failure{Kind: kind, Source: src, Abstract: c, Concrete: json.RawMessage(doc), Expected: exp, Got: got})
+		return res
+	}
+	var s jsonschema.Schema
+	if err := json.Unmarshal([]byte(doc), &s); err != nil {
+		return fail("unmarshal", "Unmarshal accepts the document", err.Error())
+	}
+	b1, err := json.Marshal(&s)
+	if err != nil {
+		return fail("marshal", "Marshal succeeds", err.Error())
+	}
+	var got, want any
+	d1 := json.NewDecoder(bytes.NewReader(b1))
+	d1.UseNumber()
+	d1.Decode(&got)
+	d2 := json.NewDecoder(strings.NewReader(norm))
+	d2.UseNumber()
+	d2.Decode(&want)
+	if !jsonSame(got, want) {
+		return fail("normal-form", json.RawMessage(norm), json.RawMessage(b1))
+	}
+	var s2 jsonschema.Schema
+	if err := json.Unmarshal(b1, &s2); err != nil {
+		return fail("unmarshal2", "Unmarshal accepts Marshal's output", err.Error())
+	}
+	b2, _ := json.Marshal(&s2)
+	if !bytes.Equal(b1, b2) {
+		return fail("not-idempotent", string(b1), string(b2))
+	}
+	r1, e1 := s.Resolve(nil)
+	r2, e2 := s2.Resolve(nil)
+	if (e1 == nil) != (e2 == nil) {
+		return fail("meaning", errText(e1), errText(e2))
+	}
+	if e1 == nil {
+		for _, it := range rawDocInsts {
+			var v any
+			json.Unmarshal([]byte(it), &v)
+			res.Evals += 2
+			if (r1.Validate(v) == nil) != (r2.Validate(v) == nil) {
+				return fail("meaning", "same verdict before and after the round trip for "+it, "differs")
+			}
+		}
+	}
+	res.Sample = map[string]any{"document": json.RawMessage(doc), "marshaled": json.RawMessage(b1)}
+	return res
+}
+
+// jsonSame compares decoded JSON values; numbers by mathematical value.
+func jsonSame(a, b any) bool {
+	switch x := a.(type) {
+	case json.Number:
+		y, ok := b.(json.Number)
+		if !ok {
+			return false
+		}
+		rx, ok1 := new(big.Rat).SetString(x.String())
+		ry, ok2 := new(big.Rat).SetString(y.String())
+		return ok1 && ok2 && rx.Cmp(ry) == 0
+	case map[string]any:
+		y, ok := b.(map[string]any)
+		if !ok || len(x) != len(y) {
+			return false
+		}
+		for k, v := range x {
+			w, ok := y[k]
+			if !ok || !jsonSame(v, w) {
+				return false
+			}
+		}
+		return true
+	case []any:
+		y, ok := b.([]any)
+		if !ok || len(x) != len(y) {
+			return false
+		}
+		for i := range x {
+			if !jsonSame(x[i], y[i]) {
+				return false
+			}
+		}
+		return true
+	}
+	return reflect.DeepEqual(a, b)
 }
